@@ -385,6 +385,9 @@ RejectedObs(r) == r.rejected => r.liveBefore = r.liveAfter
 \* (`afterApplied`): "yields an equal configuration ... so writing back what was read is a no-op".
 \* A nil list and an empty list are the same configuration value (both mean "no entries" to every
 \* consumer; the API renders both as [] since 06a23a0): the harness renders them alike in before/after.
+\* before/after are VALUES (a canonical rendering of the Go value: byte lengths of addresses and masks,
+\* nil vs set pointers, map contents), not JSON text; the harness also evaluates reflect.DeepEqual, the
+\* equality Core uses to decide what to restart, and lists a parameter as different when either says so.
 RoundTripObs(r) == r.valid => (/\ r.encErr = "" /\ r.decErr = "" /\ r.before = r.after
                                   /\ (r.applied => r.before = r.afterApplied))
 \* C07: one secret position seen through one API response
@@ -445,11 +448,20 @@ Classes ==
     ("Credential" :> {M("empty", ""), M("plain", "user1"), M("plainspecial", "p!$()*+.;%3C=%3E[]^_-{}@#&"),
                       M("sha256", "sha256:j1tsRqDEw9xvq/D7/9tMx6Jh/jMhk3UfjwIB2f1zgMo="),
                       M("argon2", "argon2:$argon2id$v=19$m=4096,t=3,p=1$MTIzNDU2Nzg$Ux/LWeTgJQPyfMMJo1myR64+o8rALHoPmlE1i/TR+58")}) @@
-    \* address family : address : prefix length
+    \* address family : address : prefix length  (built without the decoder), or
+    \* text:<what a configuration file / API body says> - stored as the REAL decoder stores it: a valid
+    \* configuration is whatever the loaders produce from such a text, e.g. an IPv4-mapped IPv6 network
     ("IPNetwork" :> {M("v4/32", "4:127.0.0.1:32"), M("v4/24", "4:192.168.1.0:24"), M("v4/8", "4:10.0.0.0:8"),
                      M("v4/0", "4:0.0.0.0:0"), M("v6/128", "6:::1:128"), M("v6/64", "6:fe80:::64"),
                      M("v6/32", "6:2001:db8:::32"), M("v6/0", "6::::0"), MT("v4/31", "4:192.168.1.2:31"),
-                     MT("v6/127", "6:2001:db8::2:127")}) @@
+                     MT("v6/127", "6:2001:db8::2:127"),
+                     M("t:mapped/104", "text:::ffff:10.0.0.0/104"), M("t:mapped/120", "text:::ffff:192.168.1.0/120"),
+                     M("t:mapped/128", "text:::ffff:1.2.3.4/128"), M("t:mapped/96", "text:::ffff:0.0.0.0/96"),
+                     M("t:mapped-bare", "text:::ffff:192.168.3.8"), M("t:v4-bare", "text:192.168.3.7"),
+                     M("t:v6-bare", "text:2001:db8::1"), M("t:v4/8", "text:10.0.0.0/8"), M("t:v4/0", "text:0.0.0.0/0"),
+                     M("t:v4/32", "text:10.1.2.3/32"), M("t:v6/0", "text:::/0"), M("t:v6/32", "text:2001:db8::/32"),
+                     M("t:v4-hostbits", "text:10.1.2.3/8"), MT("t:v6-hostbits", "text:2001:db8::7/32"),
+                     MT("t:mapped-hex/112", "text:::ffff:c0a8:0/112"), MT("t:v6-compressed", "text:2001:0db8:0000::/48")}) @@
     \* integer enumerations are built from the Go constant of that name
     ("LogLevel" :> {M("debug", "Debug"), M("info", "Info"), M("warn", "Warn"), M("error", "Error")}) @@
     ("LogDestination" :> {M("stdout", "DestinationStdout"), M("file", "DestinationFile"), M("syslog", "DestinationSyslog")}) @@
